@@ -8,7 +8,7 @@
    repeated-run search, not by proof. *)
 From Coq Require Import List NArith Bool Permutation.
 From Verif Require Import Base.Res Model.Analyzer Proofs.AnalyzerProofs Base.Text Model.Scope Proofs.ScopeProofs Gen.GenRules Model.Rules Proofs.RulesProofs.
-From Verif Require Model.ExprKind Proofs.ExprKindProofs Model.DataDecl Proofs.DataDeclProofs Proofs.DataDeclComplete.
+From Verif Require Gen.GenExprKind Proofs.ExprKindGen Model.ExprKind Proofs.ExprKindProofs Model.DataDecl Proofs.DataDeclProofs Proofs.DataDeclComplete.
 Import ListNotations.
 
 Theorem C06_verdict_order_independent :
@@ -101,3 +101,16 @@ Theorem C06_alias_resolution_order : forall fs fs' s s' n, DataDeclComplete.wf f
   (forall f, In f fs <-> In f fs') -> DataDecl.dwalk DataDecl.dinit0 fs = inl s -> DataDecl.dwalk DataDecl.dinit0 fs' = inl s' ->
   DataDecl.alias_kind (DataDecl.resolved s) n = DataDecl.alias_kind (DataDecl.resolved s') n.
 Proof. exact DataDeclComplete.alias_kind_order. Qed.
+
+(* the model of the expression resolver is the source's: the table regenerated from xform_resolve_late_bound_expr_kind.rs on
+   every run (what a late-bound element becomes under each of the ten variable types; how the four kinds of assignment
+   target set the current type) is the model's, and the two shapes the unit-by-unit theorem rests on -- the current type
+   is reset after an assignment, the table cleared after a function, function block or program -- are in the source (the
+   translator refuses otherwise) and in the model *)
+Theorem C06_expression_resolver_model_is_the_source : 
+  GenExprKind.gen_late = map (fun k => (ExprKindGen.vkind_name k, ExprKind.late_kind k)) ExprKindGen.all_vkinds /\
+  GenExprKind.gen_insert = map (fun k => (ExprKindGen.vkind_name k, ExprKindGen.vkind_name k)) ExprKindGen.all_vkinds /\
+  GenExprKind.gen_resets_after_assignment = true /\
+  (forall s, exists s', ExprKind.estep s ExprKind.EfEndAssign = Some (s', []) /\ ExprKind.e_cur s' = ExprKind.VkNone /\ ExprKind.e_tbl s' = ExprKind.e_tbl s) /\
+  (forall s, exists s', ExprKind.estep s ExprKind.EfExit = Some (s', []) /\ ExprKind.e_tbl s' = [] /\ ExprKind.e_cur s' = ExprKind.e_cur s).
+Proof. exact ExprKindGen.model_is_the_source. Qed.
